@@ -30,14 +30,13 @@ const (
 	SBool
 )
 
-// Sym is a symbolic scalar. Bits (when > 0) is a conservative bound |v| < 2^Bits
+// Sym is a symbolic scalar. [Lo, Hi] (nil = unknown) is a conservative interval
 // maintained by the arithmetic constructors; it lets the executor skip overflow
 // side conditions that cannot fire.
 type Sym struct {
-	S    Sort
-	T    string
-	Bits int
-	NonNeg bool
+	S      Sort
+	T      string
+	Lo, Hi *big.Int
 }
 
 type StructV struct {
